@@ -330,6 +330,19 @@ def parent(n):
     return getattr(n, "_parent", None)
 
 
+def first_touching(fn, names):
+    """the first top-level statement of fn (docstring aside) that mentions one of `names` -- the first statement that matters for
+    them, whatever unrelated statements (a flag, a log line) stand before it"""
+    names = set(names)
+    for st in fn.body:
+        if isinstance(st, ast.Expr) and isinstance(st.value, ast.Constant):
+            continue
+        if {x.id for x in ast.walk(st) if isinstance(x, ast.Name)} & names or \
+                {x.attr for x in ast.walk(st) if isinstance(x, ast.Attribute)} & names:
+            return st
+    return None
+
+
 def enclosing_fn(n):
     p = parent(n)
     while p is not None and not isinstance(p, ast.FunctionDef):
